@@ -15,6 +15,16 @@ import (
 // frames, access requests, release of the cache entry) and a state summary are compared with Comp/SubFsm.v.
 func init() {
 	register("subfsm", func(r *gen.R, n int, c *caseWriter) {
+		// the witnesses of the refuted statements (Props/C04.v, Props/C07.v) run first: model and code must agree on them
+		for _, w := range []string{"get:1;unsub:1;answer:grant", "loaded;resources;release;get:1;reaccess;answer:grant",
+			"loaded;resources;release;add;custom:1;reaccess;custom:2;answer:deny"} {
+			v := server.NewVerifSub()
+			var outs []string
+			for _, op := range strings.Split(w, ";") {
+				outs = append(outs, v.Do(op))
+			}
+			c.emit("subfsm", w, strings.Join(outs, "|"))
+		}
 		for i := 0; i < n; i++ {
 			v := server.NewVerifSub()
 			nops := 3 + r.Intn(14)
